@@ -1413,13 +1413,12 @@ class TOTP:
         assert label, "from_uri() failed to provide label"
         if not secret:
             raise cls._uri_parse_error("missing 'secret' parameter")
+        # NOTE: parameters absent from the uri take the KeyURI defaults (the ones to_uri() omits),
+        #       not whatever defaults this class was given via using().
         kwds = dict(label=label, issuer=issuer, key=secret, format="base32")
-        if digits:
-            kwds["digits"] = cls._uri_parse_int(digits, "digits")
-        if algorithm:
-            kwds["alg"] = algorithm
-        if period:
-            kwds["period"] = cls._uri_parse_int(period, "period")
+        kwds["digits"] = cls._uri_parse_int(digits, "digits") if digits else 6
+        kwds["alg"] = algorithm or "sha1"
+        kwds["period"] = cls._uri_parse_int(period, "period") if period else 30
         if extra:
             # malicious uri, deviation from spec, or newer revision of spec?
             # in either case, we issue warning and ignore extra params.
@@ -1622,6 +1621,11 @@ class TOTP:
         # XXX: could should set changed=True if active wallet is available,
         #      and source wasn't encrypted.
         kwds.pop("last_counter", None)  # extract legacy counter parameter
+        # fields omitted by to_dict() carry the format's defaults, not the defaults
+        # this class was given via using().
+        kwds.setdefault("alg", "sha1")
+        kwds.setdefault("digits", 6)
+        kwds.setdefault("period", 30)
         return kwds
 
     @staticmethod
